@@ -22,6 +22,7 @@ type Profile struct {
 	NoFillerBias bool
 	RelBias      int    // percent chance to add a relation component to ID-based creations/additions
 	Burst        bool   // open bursts of queries up to the limit of 64
+	BigBatches   bool   // batches of up to 90 entities (tables beyond 64 rows)
 	FinalOp      string // extra final operation ("roundtrip")
 	ForceReset   bool   // one Reset is forced in the middle of the case; the first prefix observer listens to OnRemoveRelations
 	ObsPrefix    int    // observers created (and mostly registered) at the start of a case
@@ -145,6 +146,8 @@ func (g *Gen) Next(t *rapid.T) *Op {
 	add("misuse", g.P.Misuse)
 	add("read", true)
 	add("dumpLoad", !locked)
+	add("gc", true)
+	add("probe", true)
 	if g.P.ObsPrefix > 0 && g.It.Step < g.P.ObsPrefix && len(m.Obs) < 8 {
 		op := g.genObs(t)
 		if g.P.ForceReset && len(m.Obs) == 0 {
@@ -230,6 +233,10 @@ func (g *Gen) Next(t *rapid.T) *Op {
 		op = g.genEmit(t)
 	case "res":
 		op = &Op{K: "res", E: rapid.IntRange(0, 3).Draw(t, "res"), Mode: rapid.IntRange(0, 1).Draw(t, "resMode")}
+	case "probe":
+		op = g.genProbe(t)
+	case "gc":
+		op = &Op{K: "gc", Mode: rapid.IntRange(0, 1).Draw(t, "gcMode")}
 	case "dumpLoad":
 		op = &Op{K: "dumpLoad", Mode: rapid.IntRange(0, 1).Draw(t, "dumpFresh")}
 	case "qOpen":
@@ -412,6 +419,9 @@ func (g *Gen) genNew(t *rapid.T) *Op {
 
 func (g *Gen) genNewBatch(t *rapid.T) *Op {
 	op := &Op{K: "newBatch", N: rapid.IntRange(1, 9).Draw(t, "count")}
+	if g.P.BigBatches && rapid.IntRange(0, 3).Draw(t, "bigBatch") == 0 {
+		op.N = rapid.IntRange(60, 90).Draw(t, "bigCount")
+	}
 	if rapid.IntRange(0, 4).Draw(t, "batchWorld") == 0 {
 		op.P = PWorld
 		op.Fn = rapid.Bool().Draw(t, "fn")
